@@ -12,14 +12,69 @@ from corr.c01 import component_sizes, components_ok
 
 
 def real(case):
-    seq, pairs = case
+    seq, pairs = case[:2]
     b = g1.mk_bpseq(seq, pairs)
     out = {}
     out["all"] = call(lambda: [d.structure for d in b.all_dot_brackets])
     out["seqs_ok"] = all(d.sequence == seq for d in b.all_dot_brackets) if out["all"][0] == "ok" else None
-    out["opt"] = call_timed(lambda: g1.mk_bpseq(seq, pairs).dot_bracket.structure)
-    out["fcfs"] = call(lambda: g1.mk_bpseq(seq, pairs).fcfs.structure)
+    # the optimal and the FCFS notation are computed on ONE further object, which is then asked for the list: the list
+    # of an object that has already been asked for other notations must be the list of a fresh one
+    b2 = g1.mk_bpseq(seq, pairs)
+    out["opt"] = call_timed(lambda: b2.dot_bracket.structure)
+    out["fcfs"] = call(lambda: b2.fcfs.structure)
+    if out["opt"][0] == "ok" and (len(pairs) + sum(pairs)) % 3 == 0 or len(case) > 2:
+        out["all_after"] = call(lambda: [d.structure for d in b2.all_dot_brackets])
     return out
+
+
+def tree_diagram(children, root=0):
+    """chord diagram (one pair per stem) whose crossing graph is the given rooted tree: the chord of v spans the left
+    ends of its children's chords; everything else of a child's subtree lies behind the right end of v, the subtrees
+    of later children inside the chords of earlier ones"""
+    def rest(v):
+        out = [("L", c) for c in children.get(v, [])] + [("R", v)]
+        for c in reversed(children.get(v, [])):
+            out += rest(c)
+        return out
+    toks = [("L", root)] + rest(root)
+    pos, pairs = {}, [0] * len(toks)
+    for i, (side, v) in enumerate(toks):
+        if side == "L":
+            pos[v] = i
+        else:
+            pairs[pos[v]], pairs[i] = i + 1, pos[v] + 1
+    return pairs
+
+
+def tree_groups(rng, k):
+    """a group of k crossing stems whose crossing graph is a tree: two levels suffice, first-fit can need many more
+    (the binomial tree on 8 vertices has a greedy-stable assignment with 4 levels)"""
+    children = {0: []}
+    if k == 8 and rng.random() < 0.5:
+        cnt = [0]
+
+        def build(order):
+            v = cnt[0]
+            cnt[0] += 1
+            children[v] = []
+            for j in rng.sample(range(1, order), order - 1):
+                children[v].append(build(j))
+            return v
+        build(4)
+    else:
+        for v in range(1, k):
+            par = rng.randrange(v)
+            children.setdefault(par, []).append(v)
+            children.setdefault(v, [])
+    pairs = tree_diagram(children)
+    # sometimes an unrelated hairpin in front or behind (the group is then not the whole structure)
+    r = rng.random()
+    if r < 0.25:
+        pairs = [4, 0, 0, 1] + [p + 4 for p in pairs]
+    elif r < 0.5:
+        n = len(pairs)
+        pairs = pairs + [n + 4, 0, 0, n + 1]
+    return (g1.seq_for(len(pairs), rng), pairs)
 
 
 def graph_realisations(rng, kind, k):
@@ -128,7 +183,9 @@ def run(ctx):
         if tw is not None:
             inputs.append(("twin-groups", tw))
     inputs = [(t, c) for t, c in inputs if components_ok(c[1], limit)]
-    outs = parallel_map(real, [c for _, c in inputs])
+    for _ in range(ctx.pick(16, 160)):
+        inputs.append(("tree-groups", tree_groups(rng, rng.choice([6, 7, 8, 8]))))
+    outs = parallel_map(real, [c if t != "tree-groups" else c + ("after",) for t, c in inputs])
     history_probe(ctx, res, real, [c for _, c in inputs], "all_dot_brackets")
     reqs, idx = [], []
     for ci, ((tag, (seq, pairs)), o) in enumerate(zip(inputs, outs)):
@@ -210,11 +267,23 @@ def run(ctx):
                     res.fail("spec", "C16:grundy-assignment-missing", inp, "greedy-stable assignment(s) absent from the list: %r" % sorted(mset - iset)[:5])
         else:
             res.fail("corr", "C16:all_dot_brackets:error", inp, "impl ok, model=%r" % r)
+        if "all_after" in o:
+            res.count("list-of-an-object-asked-for-other-notations-first")
+            if o["all_after"] != o["all"]:
+                after = o["all_after"][1] if o["all_after"][0] == "ok" else []
+                if r.startswith("ok ") and set(r[3:].split(",")) - set(after):
+                    res.fail("spec", "C16:grundy-assignment-missing:after-other-notations", inp,
+                             "asked for dot_bracket and fcfs first, the same object lists %d members (%r), a fresh one %d; greedy-stable "
+                             "assignments absent: %r" % (len(after), o["all_after"][0], len(members), sorted(set(r[3:].split(",")) - set(after))[:5]))
+                else:
+                    res.fail("corr", "C16:corr:depends-on-earlier-calls:all_dot_brackets-after-other-notations", inp,
+                             "fresh object: %r ... | after dot_bracket and fcfs: %r ..." % (members[:4], o["all_after"][1][:4] if o["all_after"][0] == "ok" else o["all_after"]))
         for k in ("opt", "fcfs"):
             if o[k][0] == "ok" and o[k][1] not in members:
                 res.fail("spec", "C16:%s-not-a-member" % k, inp, "%r not in the list" % o[k][1])
         if not knotted and (len(members) != 1 or set(members[0]) - set("().")):
             res.fail("spec", "C16:knot-free-not-single-round", inp, "%r" % members[:3])
+    mapping_lists(ctx, res)
     import corr.c16_impl as c16_impl; c16_impl.run_impl(ctx, res, inputs, outs)  # implementation-level model (DFS, greedy loop, list order)
     both = list(zip(inputs, outs))
     for (tag, c), o in both[::max(1, len(both) // 6)][:6]:
@@ -222,8 +291,78 @@ def run(ctx):
     return res
 
 
+def real_mapping(case):
+    """Mapping2D3D.all_dot_brackets of a 3D structure + pair list, next to BpSeq.all_dot_brackets of its own BPSEQ"""
+    from gen import g2
+    from rnapolis.tertiary import Mapping2D3D
+    structure = g2.build_structure(case["structure"])
+    m = Mapping2D3D(structure, g2.build_pairs(structure, case["pairs"], case["mode"]), [], case["find_gaps"])
+    st, v = call(lambda: ("".join(e.sequence for e in m.bpseq.entries), [e.pair for e in m.bpseq.entries]))
+    if st != "ok":
+        return {"bpseq": (st, v)}
+    seq, partners = v
+    out = {"bpseq": ("ok", v)}
+    if not components_ok(partners, 6):
+        return out
+    out["strands"] = call(lambda: [[c, q] for c, q in m.strands_sequences])
+    out["all3d"] = call(lambda: list(m.all_dot_brackets))
+    out["all2d"] = call(lambda: [d.structure for d in g1.mk_bpseq(seq, partners).all_dot_brackets])
+    return out
+
+
+def mapping_lists(ctx, res):
+    """the list at the 3D entry point: every member spells the strands of the structure in file order with their
+    sequences, and the concatenated structure lines are, member by member, BpSeq.all_dot_brackets of the mapping's own
+    BPSEQ (whose relation to the greedy-stable assignments the rest of this check establishes)"""
+    from gen import g2
+    from corr.c06 import lw_tables
+    rng = ctx.rng
+    _, lw_rev = lw_tables()
+    cases = []
+    while len(cases) < ctx.pick(300, 3000):
+        sd = g2.synthetic(rng)
+        s = g2.build_structure(sd)
+        if not g2.unique_ok(s):
+            continue
+        letters = [r.one_letter_name for r in g2.nucleotides(s)]
+        pairs, _ = g2.random_pairs(rng, letters, lw_rev=lw_rev)
+        cases.append({"structure": sd, "pairs": pairs, "mode": "auth", "find_gaps": rng.random() < 0.5})
+    outs = parallel_map(real_mapping, cases)
+    for c, o in zip(cases, outs):
+        if "all3d" not in o:
+            res.count("mapping:skipped")
+            continue
+        inp = dict(c, family="mapping")
+        strands = o["strands"][1] if o["strands"][0] == "ok" else None
+        res.count("mapping:strands=%s" % (min(len(strands), 4) if strands is not None else "?"))
+        if strands is not None and len({x for x, _ in strands}) < len(strands):
+            res.count("mapping:chain-identifier-on-several-strands")
+        if o["all3d"][0] != "ok" or o["all2d"][0] != "ok" or strands is None:
+            if o["all2d"][0] == "ok":
+                res.fail("spec", "C16:mapping:raises:%s" % (o["all3d"][1] if o["all3d"][0] != "ok" else o["strands"][1]), inp,
+                         "Mapping2D3D.all_dot_brackets raised")
+            continue
+        res.case(("mapping", repr(c["structure"])[:300], repr(c["pairs"])), nontrivial=len(o["all2d"][1]) > 1)
+        res.count("mapping:members", len(o["all3d"][1]))
+        want = []
+        for member in o["all2d"][1]:
+            lines, k = [], 0
+            for chain, q in strands:
+                lines += [">strand_%s" % chain, q, member[k:k + len(q)]]
+                k += len(q)
+            want.append("\n".join(lines))
+        if o["all3d"][1] != want:
+            bad = next((a for a, b in zip(o["all3d"][1], want) if a != b), None)
+            res.fail("spec", "C16:mapping:list-is-not-the-list-of-its-bpseq", inp,
+                     "Mapping2D3D.all_dot_brackets has %d members, BpSeq.all_dot_brackets of its BPSEQ %d; first differing member %r, expected %r"
+                     % (len(o["all3d"][1]), len(want), bad, want[o["all3d"][1].index(bad)] if bad in o["all3d"][1] and o["all3d"][1].index(bad) < len(want) else None))
+
+
 def replay(ctx, data):
+    if data["input"].get("family") == "mapping":
+        print(real_mapping(data["input"]))
+        return
     inp = data["input"]
-    o = real((inp["seq"], inp["pairs"]))
+    o = real((inp["seq"], inp["pairs"], "after"))
     print("impl:", o)
     print("model:", ctx.driver.ask1("ss.alldb", inp["seq"], g1.pstr(inp["pairs"])))
